@@ -627,7 +627,7 @@ func (c *Ctx) ruleInverseTables(rr *RuleRep) {
 		if !isM || !isK || m != 6 || c.Resolve(stripConv(and.X)) != ssa.Value(flag) {
 			continue
 		}
-		for in := range ReachableFromBlock(p, b.Succs[0], PathQ{BlockInstr: func(i ssa.Instruction) bool { _, isIf := i.(*ssa.If); return isIf }}) {
+		for in := range ReachableViaEdge(p, ifEdge{b, 0}, PathQ{BlockInstr: func(i ssa.Instruction) bool { _, isIf := i.(*ssa.If); return isIf }}) {
 			if st, ok := in.(*ssa.Store); ok {
 				if _, isQ := isFieldAddr(st.Addr, "Message", "QoS"); isQ {
 					if q, ok := constInt(st.Val); ok {
@@ -1233,7 +1233,7 @@ func (c *Ctx) ruleRejectBeforeWrite(rr *RuleRep) {
 			continue
 		}
 		rejects := func(k int, sentinel string) bool {
-			for in := range ReachableFromBlock(val, b.Succs[k], PathQ{BlockInstr: func(i ssa.Instruction) bool { _, isIf := i.(*ssa.If); return isIf }}) {
+			for in := range ReachableViaEdge(val, ifEdge{b, k}, PathQ{BlockInstr: func(i ssa.Instruction) bool { _, isIf := i.(*ssa.If); return isIf }}) {
 				if ret, ok := in.(*ssa.Return); ok {
 					if call, _ := c.asCall(c.errResult(ret)); call != nil && len(call.Call.Args) > 0 && c.isGlobalLoad(call.Call.Args[0], sentinel) {
 						return true
